@@ -264,10 +264,8 @@ func (e *Engine) havocForLoop(st *State, W *writeSet, ctx *LoopCtx, li *loopInfo
 		srt := SInt
 		if ok {
 			srt = old.Sort
-		} else if g == "closed" {
-			srt = SArrB
-		} else if g == "sends" {
-			srt = SArrI
+		} else if gs, known := ghostSorts[g]; known {
+			srt = gs
 		}
 		st.Ghost[g] = tb.Fresh("lg_"+g, srt)
 		if st.Disc != nil {
